@@ -137,7 +137,7 @@ def check_cases(cases: list[dict], rep: Report, known: dict) -> None:
                 a = [pyval(z) for z in args]
                 work.append(({"constructor": cname, "operand": repr(f), "position": pos}, got, bt.ask(f"F0 mk {tag} {a[0]} {a[1]}")))
         for cname, K, tag in (("Add", X.Add, "A"), ("Multiply", X.Multiply, "M")):
-            for k in (1, 2, 3, 4):
+            for k in (1, 2, 3, 4, 6, 9, 17, 33):
                 for pos in range(k):
                     rep.evaluations += 1
                     args = [x_() for _ in range(k)]
